@@ -34,6 +34,22 @@ ALLOWED_AXIOMS = {
     'sig_forall_dec', 'sig_not_dec',
     'Classical_Prop.classic', 'classic',
 }
+# Names that Print Assumptions lists under "Axioms:" for developments over primitive floats /
+# 63-bit integers: the kernel's primitive types and operations (PrimFloat.*, PrimInt63.*) and
+# the specifications of them that the STANDARD LIBRARY itself declares as axioms
+# (Coq.Floats.FloatAxioms: Prim2SF_valid, SF2Prim_Prim2SF, Prim2SF_SF2Prim, add_spec, …;
+# Coq.Numbers.Cyclic.Int63.Uint63: of_to_Z, add_spec, lsl_spec, …).  They are accepted by the
+# module that declares them (scan_forbidden() guarantees the development declares none itself)
+# and are named in the trusted base of every property that uses them.
+ALLOWED_AXIOM_MODULES = {'PrimFloat', 'PrimInt63', 'FloatAxioms', 'Uint63', 'Uint63Axioms',
+                         'FloatOps', 'SpecFloat'}
+
+
+def axiom_allowed(a):
+    if a in ALLOWED_AXIOMS or a.split('.')[-1] in ALLOWED_AXIOMS:
+        return True
+    parts = a.split('.')
+    return len(parts) >= 2 and parts[-2] in ALLOWED_AXIOM_MODULES
 
 
 # --------------------------------------------------------------------------
@@ -415,7 +431,7 @@ def proof_obligations(pid):
             body = b[len('Axioms:'):]
             axs = re.findall(r'^([A-Za-z_][\w\.\']*)\s*:', body, re.M)
         allax.update(axs)
-        good = all(a in ALLOWED_AXIOMS or a.split('.')[-1] in ALLOWED_AXIOMS for a in axs)
+        good = all(axiom_allowed(a) for a in axs)
         res['theorems'].append({'name': name, 'axioms': axs, 'accepted': good})
         if good:
             res['discharged'] += 1
